@@ -37,3 +37,6 @@ def handle : List String → String
   | _ => "bad-op"
 
 end Driver.C18
+
+def main : IO Unit := Driver.runLoop Driver.C18.handle
+
